@@ -195,6 +195,8 @@ namespace igris
         void erase(iterator first, iterator last)
         {
             size_t sz = last - first;
+            if (sz == 0)
+                return;
             iterator tail = std::move(last, end(), first);
             for (size_t i = 0; i < sz; ++i)
             {
